@@ -20,7 +20,8 @@ LEVEL = "exploration"
 
 VALUES = [Fraction(1), Fraction(2), Fraction(3), Fraction(5), Fraction(8), Fraction(1, 2)]
 SCALES = [Fraction(1), Fraction(1, 1000), Fraction(10**6)]
-INTERVALS = [("1min", 1 / 1440), ("1h", 1 / 24), ("1D", 1.0)]
+# 36h gives spans that are not whole days, 7D / 36h do not divide a 365-day year evenly
+INTERVALS = [("1min", 1 / 1440), ("1h", 1 / 24), ("1D", 1.0), ("36h", 1.5), ("7D", 7.0)]
 REL = 1e-9
 
 
@@ -291,7 +292,7 @@ def main(run: Run):
         "evaluations": run.counters.get("evaluations", 0),
         "distinct_nontrivial": len(shapes),
         "rule": f"all series of length 2..{maxlen} over values {[str(v) for v in VALUES]} (x scales "
-                f"{[str(s) for s in SCALES]}, x intervals 1min/1h/1D); benchmark = all series of the same length for "
+                f"{[str(s) for s in SCALES]}, x intervals 1min/1h/1D/36h/7D); benchmark = all series of the same length for "
                 f"length <= {bench_len}. distinct_nontrivial = number of distinct non-constant series shapes "
                 f"(series divided by its first value). Metrics whose definition is undefined on a case (zero "
                 f"variance) are counted in *_undefined_skipped and not judged.",
